@@ -12,14 +12,13 @@ import (
 
 	"golang.org/x/tools/go/ssa"
 
-	"verifcheck/internal/flow"
 	"verifcheck/internal/ssaq"
 )
 
 func init() {
 	Register(&Spec{
 		ID:          "C08",
-		Explanation: "Decides structural necessary conditions of robustness against a hostile peer: (R1) every index into Conn.questions/exports/embargoes is justified by a dominating length test, a non-nil find* result for the same id, or an id that comes from the local id generator; (R2) every entry read from a Conn table (or returned by findExport/findEmbargo) is tested non-nil before a field is accessed; (R3) the error passed to annotate/errors.Annotate (which panics on nil) is proven non-nil on its path, and a known-nil argument is always reported; (R4) a func-typed struct field that some site believes can be nil is tested before every call through it; (R5) message dispatch switches have non-panicking defaults and the target switch in handleCall covers what parseMessageTarget accepts; (R6) the error of every handler reaches receive's return; (R7) the explicit panics reachable from the receive loop are the enumerated ones; (R8) handlers keep the lock discipline and never run application code or block under Conn.mu. (R2t) a pointer obtained from a comma-ok type assertion is dereferenced, also inside a closure that captures it, only where ok holds; (R9) every tasks.Add(1) is matched by a Done on every path. Does NOT decide that each reply is the protocol-correct one, nor liveness under real scheduling.",
+		Explanation: "Decides structural necessary conditions of robustness against a hostile peer: (R1) every index into Conn.questions/exports/embargoes is justified by a dominating length test, a non-nil find* result for the same id, or an id that comes from the local id generator; (R2) every entry read from a Conn table (or returned by findExport/findEmbargo) is tested non-nil before a field is accessed; (R3) the error passed to annotate/errors.Annotate (which panics on nil) is proven non-nil on its path, and a known-nil argument is always reported; (R4) a func-typed struct field that some site believes can be nil is tested before every call through it; (R5) message dispatch switches have non-panicking defaults and the target switch in handleCall covers what parseMessageTarget accepts; (R6) the error of every handler reaches receive's return; (R7) the explicit panics reachable from the receive loop are the enumerated ones; (R8) handlers keep the lock discipline and never run application code or block under Conn.mu. (R2t) a pointer obtained from a comma-ok type assertion is dereferenced, also inside a closure that captures it, only where ok holds; (R9) every tasks.Add(1) is matched by a Done on every path. (R2m) clearCapTable never gets Ptr.Message() of a pointer that was not tested with IsValid; (R4s) the pipelined dispatch in handleCall is dominated by \"the target entry is not the answer this handler just inserted\"; (R7b) answer.sendReturn returns an error only where finishReceived is established (handleBootstrap panics on any error from it). (R1p) the readers construct objects only under a bounds test of the constructed extent (shared with C01-R5). Does NOT decide that each reply is the protocol-correct one, nor liveness under real scheduling.",
 		Run:         runC08,
 	})
 }
@@ -27,10 +26,16 @@ func init() {
 var connTables = []string{"questions", "answers", "exports", "imports", "embargoes"}
 
 func runC08(ctx *Ctx) {
+	ruleClearCapTableArg(ctx, "C08-R2m")
+	ruleOwnEntryNotTarget(ctx, "C08-R4s")
+	ruleSendReturnErrorOnlyAfterFinish(ctx, "C08-R7b")
 	// every tasks.Add(1) is matched by a Done on every path (shutdown waits on the task group): shared with C09-R5t
 	ruleTaskPairing(ctx, "C08-R9")
 	ruleAssertedPointerUse(ctx, "C08-R2t", "rpc")
 	ruleUntrustedIndex(ctx, "C08-R1")
+	// malformed or out-of-bounds pointers in a peer's message: the readers
+	// build an object only under a bounds test of its extent (shared with C01-R5)
+	ruleConstructionSites(ctx, "C08-R1p")
 	ruleTableEntryNil(ctx, "C08-R2", "rpc")
 	ruleAnnotateNonNil(ctx, "C08-R3")
 	ruleNilableFuncFields(ctx, "C08-R4")
@@ -653,144 +658,6 @@ func fieldOwner(fld *types.Var) string {
 	return "?"
 }
 
-// ruleDispatchDefaults is C08-R5.
-func ruleDispatchDefaults(ctx *Ctx, rule string) {
-	a := lockAnalysis(ctx)
-	if a == nil {
-		return
-	}
-	r := ctx.Rep
-	whichSwitch := func(u *flow.Unit) []*ast.SwitchStmt {
-		var out []*ast.SwitchStmt
-		info := u.Pkg.TypesInfo
-		ast.Inspect(u.Body, func(n ast.Node) bool {
-			sw, ok := n.(*ast.SwitchStmt)
-			if !ok || sw.Tag == nil {
-				return true
-			}
-			isWhich := false
-			ast.Inspect(sw.Tag, func(m ast.Node) bool {
-				if c, ok := m.(*ast.CallExpr); ok && strings.HasSuffix(calleeName(info, c), ").Which") {
-					isWhich = true
-				}
-				if id, ok := m.(*ast.Ident); ok {
-					if t := info.TypeOf(id); t != nil && strings.HasSuffix(t.String(), "_Which") {
-						isWhich = true
-					}
-				}
-				if sel, ok := m.(*ast.SelectorExpr); ok {
-					if t := info.TypeOf(sel); t != nil && strings.HasSuffix(t.String(), "_Which") {
-						isWhich = true
-					}
-				}
-				return true
-			})
-			if isWhich {
-				out = append(out, sw)
-			}
-			return true
-		})
-		return out
-	}
-	defaultOf := func(sw *ast.SwitchStmt) *ast.CaseClause {
-		for _, c := range sw.Body.List {
-			if cc := c.(*ast.CaseClause); cc.List == nil {
-				return cc
-			}
-		}
-		return nil
-	}
-	hasPanic := func(n ast.Node) bool {
-		found := false
-		ast.Inspect(n, func(m ast.Node) bool {
-			if c, ok := m.(*ast.CallExpr); ok {
-				if id, ok := c.Fun.(*ast.Ident); ok && id.Name == "panic" {
-					found = true
-				}
-			}
-			return true
-		})
-		return found
-	}
-	caseSet := func(u *flow.Unit, sw *ast.SwitchStmt) map[string]bool {
-		out := map[string]bool{}
-		for _, c := range sw.Body.List {
-			for _, e := range c.(*ast.CaseClause).List {
-				if tv, ok := u.Pkg.TypesInfo.Types[e]; ok && tv.Value != nil {
-					out[tv.Value.ExactString()+":"+types.ExprString(e)] = true
-				}
-			}
-		}
-		return out
-	}
-	for _, name := range []string{"rpc.(*Conn).receive", "rpc.(*Conn).recvCap", "rpc.parseMessageTarget", "rpc.parseTransform", "rpc.(*Conn).parseReturn", "rpc.(*Conn).handleDisembargo"} {
-		u := mustUnit(ctx, a, rule, name)
-		if u == nil {
-			continue
-		}
-		sws := whichSwitch(u)
-		if len(sws) == 0 {
-			r.Fail("%s: no switch on a Which() discriminant in %s", rule, name)
-			continue
-		}
-		for i, sw := range sws {
-			key := fmt.Sprintf("%s | dispatch switch #%d has a safe default", name, i+1)
-			d := defaultOf(sw)
-			pos := ctx.Prog.Rel(sw.Pos())
-			switch {
-			case d == nil:
-				r.Violation(rule, key, pos, "the switch over a peer-controlled union discriminant has no default: an unknown member falls through silently")
-			case hasPanic(d):
-				r.Violation(rule, key, pos, "the default of a switch over a peer-controlled union discriminant panics")
-			case name == "rpc.(*Conn).receive":
-				calls := false
-				ast.Inspect(d, func(m ast.Node) bool {
-					if c, ok := m.(*ast.CallExpr); ok && calleeName(u.Pkg.TypesInfo, c) == "rpc.(*Conn).handleUnknownMessage" {
-						calls = true
-					}
-					return true
-				})
-				if calls {
-					r.Ok(rule, key, pos, "default reaches handleUnknownMessage (Unimplemented echo)")
-				} else {
-					r.Violation(rule, key, pos, "receive's default no longer echoes the message as Unimplemented")
-				}
-			default:
-				r.Ok(rule, key, pos, "default present and does not panic")
-			}
-		}
-	}
-	// handleCall's target switch covers what parseMessageTarget accepts
-	hc, pm := mustUnit(ctx, a, rule, "rpc.(*Conn).handleCall"), mustUnit(ctx, a, rule, "rpc.parseMessageTarget")
-	if hc != nil && pm != nil {
-		var hsw *ast.SwitchStmt
-		for _, sw := range whichSwitch(hc) {
-			if d := defaultOf(sw); d != nil && hasPanic(d) {
-				hsw = sw
-			}
-		}
-		psws := whichSwitch(pm)
-		key := "handleCall | target switch covers parseMessageTarget's accepted members"
-		if hsw == nil {
-			r.Ok(rule, key, ctx.Prog.Rel(hc.Pos), "handleCall has no panicking default on the target discriminant")
-		} else if len(psws) > 0 {
-			acc, have := caseSet(pm, psws[0]), caseSet(hc, hsw)
-			var missing []string
-			for k := range acc {
-				if !have[k] {
-					missing = append(missing, k)
-				}
-			}
-			sort.Strings(missing)
-			if len(missing) == 0 {
-				r.Ok(rule, key, ctx.Prog.Rel(hsw.Pos()), fmt.Sprintf("the %d members parseMessageTarget accepts all have a case; the panicking default is unreachable", len(acc)))
-			} else {
-				r.Violation(rule, key, ctx.Prog.Rel(hsw.Pos()), "parseMessageTarget accepts target kinds that handleCall's switch sends to panic(\"unreachable\"): "+strings.Join(missing, ", "))
-			}
-		}
-	}
-}
-
 // ruleHandlerErrors is C08-R6.
 func ruleHandlerErrors(ctx *Ctx, rule string) {
 	q := ssaq.For(ctx.Prog)
@@ -930,6 +797,59 @@ func rulePanicCensus(ctx *Ctx, rule string, roots []string, table map[string][]s
 						allowed = true
 					}
 				}
+				if !allowed && ssaq.IsNew(f) {
+					// a panic moved into a helper that did not exist on the
+					// reference tree stays the enumerated panic of the
+					// reference-tree functions that reach the helper; a message
+					// built from a parameter is matched as a pattern
+					pat := msg
+					if mi, ok := p.X.(*ssa.MakeInterface); ok && msg == "<non-constant>" {
+						pat = concatPattern(mi.X)
+					}
+					// owners: the reference-tree functions, themselves reachable
+					// from the roots, that reach f through new helpers
+					ownerSet, seenF := map[string]bool{}, map[*ssa.Function]bool{f: true}
+					stack := []*ssa.Function{f}
+					for len(stack) > 0 {
+						g := stack[len(stack)-1]
+						stack = stack[:len(stack)-1]
+						for _, e := range q.Callers(g) {
+							c := e.Caller.Func
+							if !reach[c] {
+								continue
+							}
+							for c.Parent() != nil {
+								c = c.Parent()
+							}
+							if ssaq.IsNew(c) {
+								if !seenF[c] {
+									seenF[c] = true
+									stack = append(stack, c)
+								}
+								continue
+							}
+							ownerSet[ssaq.FuncName(c)] = true
+						}
+					}
+					var owners []string
+					for on := range ownerSet {
+						owners = append(owners, on)
+					}
+					sort.Strings(owners)
+					if len(owners) > 0 {
+						all := true
+						for _, on := range owners {
+							one := false
+							for _, m := range table[on] {
+								if m == "*" || wildcardMatch(pat, m) {
+									one = true
+								}
+							}
+							all = all && one
+						}
+						allowed = all
+					}
+				}
 				if allowed {
 					r.Ok(rule, key, pos, "enumerated panic (programmer error or invariant with its own guarding rule)")
 				} else {
@@ -938,4 +858,43 @@ func rulePanicCensus(ctx *Ctx, rule string, roots []string, table map[string][]s
 			}
 		}
 	}
+}
+
+// concatPattern renders a string built by concatenation as a pattern: constant
+// parts literally, everything else as "*".
+func concatPattern(v ssa.Value) string {
+	switch x := v.(type) {
+	case *ssa.Const:
+		if x.Value != nil && x.Value.Kind() == constant.String {
+			return constant.StringVal(x.Value)
+		}
+	case *ssa.BinOp:
+		if x.Op == token.ADD {
+			return concatPattern(x.X) + concatPattern(x.Y)
+		}
+	}
+	return "*"
+}
+
+// wildcardMatch: s matches pat, in which each "*" stands for any text.
+func wildcardMatch(pat, s string) bool {
+	if !strings.Contains(pat, "*") {
+		return pat == s
+	}
+	parts := strings.Split(pat, "*")
+	if !strings.HasPrefix(s, parts[0]) {
+		return false
+	}
+	s = s[len(parts[0]):]
+	for i := 1; i < len(parts); i++ {
+		if i == len(parts)-1 {
+			return strings.HasSuffix(s, parts[i])
+		}
+		j := strings.Index(s, parts[i])
+		if j < 0 {
+			return false
+		}
+		s = s[j+len(parts[i]):]
+	}
+	return true
 }
